@@ -41,8 +41,12 @@ def frame_obligations(g):
         fn = frames.methods_of(R)["read"][0]
         calls = [n for n in ast.walk(fn) if isinstance(n, ast.Call) and isinstance(n.func, ast.Call)
                  and isinstance(n.func.func, ast.Attribute) and n.func.func.attr == helper]
-        g.check(f"{R.__name__}.read builds a new parser object in every call", len(calls) == 1,
-                {"calls_found": len(calls)})
+        # (one syntactic way of being fresh; when the call is not where this looks the question goes to the object
+        # invariant above and to the bounded reuse histories: undecided here, not a violation)
+        if len(calls) == 1:
+            g.check(f"{R.__name__}.read builds a new parser object in every call", True, None)
+        else:
+            g.undecided(f"{R.__name__}.read builds a new parser object in every call", f"{len(calls)} such calls found in read()")
 
 
 # ------------------------------------------------------------------------------------ bounded part
